@@ -888,7 +888,7 @@ func genC01(c *Ctx) {
 		// (the canonical printer of the model is quadratic in the depth: ~2.5 s per 10000 levels)
 		cheapOnly := false // set for texts on which the reference parser is quadratic (nested objects)
 		deep := func(t, tag string, exact bool) {
-			if cheapOnly && !c.Thorough() {
+			if cheapOnly {
 				c.Run("C01.accepts", Args(t), "C01.accepts", "", "nesting/"+tag)
 				c.Run("C01.nesting", Args(t), "C01.nesting", "", "nesting/"+tag)
 				c.Count("nesting: " + tag)
@@ -914,15 +914,15 @@ func genC01(c *Ctx) {
 			tag := fmt.Sprintf("depth %d", n)
 			deep(rep("[", n)+"1"+rep("]", n), tag+" arrays", n == 10000 || n == 10001 || th)
 			if n >= 10000 || th {
-				// (the reference parser is quadratic on nested objects: ~2.5 s per text of 10000 levels;
-				// in the quick tier only the verdict is compared on these)
-				cheapOnly = true
-				deep(rep(`{"":`, n)+"1"+rep("}", n), tag+" objects", n > 10000 || th)
+				// (the reference parser is quadratic on nested objects: ~2.5 s per text of 10000 levels,
+				// four times that at 20000: verdict only in the quick tier and at 20000)
+				cheapOnly = !th || n > 10001
+				deep(rep(`{"":`, n)+"1"+rep("}", n), tag+" objects", false)
 				cheapOnly = false
 			}
 			if n == 10000 || n == 10001 || th {
-				cheapOnly = n > 10000
-				deep(rep(`[{"":`, n/2)+rep("[", n%2)+`"x"`+rep("]", n%2)+rep("}]", n/2), tag+" mixed", n > 10000 || th)
+				cheapOnly = n > 10001 || (n > 10000 && !th)
+				deep(rep(`[{"":`, n/2)+rep("[", n%2)+`"x"`+rep("]", n%2)+rep("}]", n/2), tag+" mixed", false)
 				cheapOnly = false
 			}
 		}
